@@ -17,7 +17,7 @@ Task: produce up to TWO different source changes to the library (files under {w}
  (1) BREAKS the property: some input / history / schedule / crash point inside the property's quantifier now violates its statement;
  (2) still imports and PASSES the existing test-suite: run at least the test files covering the code you touched, e.g.
      cd {w} && PYTHONPATH={w} /venv/bin/python -m pytest -q -p no:cacheprovider tests/<area>   (also spec_tests/ if relevant)
-     A test that already fails WITHOUT your change does not count against you (check with `git stash` / `git stash pop`);
+     A test that already fails WITHOUT your change does not count against you (check by saving your diff to a file, `git checkout -- .`, running the test, then `git apply` your diff again; do NOT use `git stash`: the stash is shared with other worktrees of this repository);
  (3) is REALISTIC: the kind of slip a maintainer makes in a refactoring or an "optimisation" (an off-by-one, a dropped special case, a changed default, a cached value that is not invalidated, a comparison done on the wrong representation, a missing copy, two steps swapped, an exception swallowed), NOT sabotage that ordinary use would expose at once. It should need something specific to manifest: a particular interleaving or crash point, a multi-step sequence of operations on one object, an unusual but legal input, a particular combination of options, or two cooperating sites that each look fine alone. Prefer changes far from what the existing tests assert.
 
 For each change N (1, 2) write into the directory {w}_out/ (create it):
